@@ -78,7 +78,9 @@ def method_table(methods):
         n = m["name"]
         if m["file"] == "mod.rs":
             if n not in HAND:
-                raise SystemExit("gen_builder: TOOL ERROR: hand-written Builder method %s is not known to the generator" % n)
+                # a public method the pinned tree did not have: no listed property speaks about it; it is not driven
+                tab[n] = {"op": "", "kind": "meta", "unpinned": True}
+                continue
             tab[n] = {"op": HAND[n][0] or "", "kind": HAND[n][1]}
         else:
             kind = KIND_BY_FILE[m["file"]]
@@ -87,7 +89,8 @@ def method_table(methods):
             if kind == "type" and n.endswith("_id"):
                 kind = "type_id"
             if m["doc_op"] is None:
-                raise SystemExit("gen_builder: TOOL ERROR: cannot find the opcode in the doc comment of %s" % n)
+                tab[n] = {"op": "", "kind": "meta", "unpinned": True}   # a helper next to the generated methods: not driven
+                continue
             tab[n] = {"op": m["doc_op"], "kind": kind}
     return tab
 
